@@ -123,3 +123,41 @@ extern "C" void h_write_bad()
   OBL(g_wn == 0, "C17.write: a command with a bad address writes nothing (and returns)");
   CANARY("h_write_bad end");
 }
+
+/* C08 — UtilContext::disasm(start, end): the whole-image disassembly walks the 64 KiB pages of the range and
+ * hands every run of consecutive pages that are in use to the CPU's range disassembler exactly once, from the
+ * lowest used address of the run's first page to the highest used address of its last page; pages that are
+ * not in use are skipped; the walk terminates.  BOUNDED: the range touches at most 4 pages. */
+extern "C" { unsigned g_p0; int g_inuse[4]; unsigned g_pmin[4], g_pmax[4]; unsigned g_ca[5], g_cb[5]; int g_nc; int g_bad_query; }
+bool Memory::in_use(uint32_t address) { unsigned pi = (address >> 16) - g_p0; if (pi > 3) { g_bad_query = 1; return false; } return g_inuse[pi] != 0; }
+uint32_t Memory::get_page_address_min(uint32_t address) { unsigned pi = (address >> 16) - g_p0; if (pi > 3 || !g_inuse[pi]) { g_bad_query = 1; return 0; } return (address & 0xffff0000u) + g_pmin[pi]; }
+uint32_t Memory::get_page_address_max(uint32_t address) { unsigned pi = (address >> 16) - g_p0; if (pi > 3 || !g_inuse[pi]) { g_bad_query = 1; return 0; } return (address & 0xffff0000u) + g_pmax[pi]; }
+static void rec_range(Memory *memory, uint32_t flags, uint32_t start, uint32_t end) { if (g_nc < 5) { g_ca[g_nc] = start; g_cb[g_nc] = end; } g_nc++; }
+extern "C" void h_disasm_pages()
+{
+  UtilContext u;
+  u.bytes_per_address = 1; u.flags = 0; u.disasm_range = rec_range;
+  unsigned start = nondet_uint(), end = nondet_uint();
+  ASSUME(start <= end && end < 0xfff00000u && (end >> 16) - (start >> 16) <= 3);
+  g_p0 = start >> 16; g_nc = 0; g_bad_query = 0;
+  for (int i = 0; i < 4; i++) { g_inuse[i] = nondet_int() & 1; g_pmin[i] = nondet_uint() & 0xffff; g_pmax[i] = nondet_uint() & 0xffff; ASSUME(g_pmin[i] <= g_pmax[i]); }
+  ASSUME(g_inuse[0] == 1);      /* callers pass the image's lowest written address: its page is in use */
+  unsigned npages = (end >> 16) - (start >> 16) + 1;
+  u.disasm(start, end);
+  OBL(!g_bad_query, "C08.pages: page queries are made only for pages of the range that are in use");
+  OBL(g_nc <= 2, "C08.pages: at most one call per run of consecutive in-use pages");
+  int w = nondet_int(); ASSUME(w >= 0 && w < 4);
+  if ((unsigned)w < npages)
+  {
+    int covered = 0;
+    for (int k = 0; k < 2; k++) if (k < g_nc && (g_ca[k] >> 16) - g_p0 <= (unsigned)w && (unsigned)w <= (g_cb[k] >> 16) - g_p0) covered++;
+    OBL(covered == (g_inuse[w] ? 1 : 0), "C08.pages: every in-use page of the range is disassembled exactly once, pages not in use are skipped");
+  }
+  for (int k = 0; k < 2; k++) if (k < g_nc)
+  {
+    unsigned fa = (g_ca[k] >> 16) - g_p0, fb = (g_cb[k] >> 16) - g_p0;
+    OBL(fa <= 3 && fb <= 3 && fa <= fb && g_ca[k] == ((g_p0 + fa) << 16) + g_pmin[fa] && g_cb[k] == ((g_p0 + fb) << 16) + g_pmax[fb],
+        "C08.pages: a run is disassembled from the lowest used address of its first page to the highest used address of its last page");
+  }
+  CANARY("h_disasm_pages end");
+}
